@@ -53,6 +53,16 @@ def scenario(args):
     elif kind == "routing-mid":
         s, d, t, n = p
         jobs.append(net.job_write(name[s], d, t, msg(n), budget_ms=8000))
+    elif kind == "context":
+        # the documented idiom for a node that shares its radio: `with node: node.update(); node.send(...)`
+        s, d, n = p
+
+        def enter_update(ns, nm):
+            ns.objs[nm].__enter__()
+            return ns.objs[nm].update()
+        jobs.append(net.job_call(name[s], "update", enter_update))
+        jobs.append(net.job_write(name[d], s, 0, msg(n), budget_ms=8000))        # a frame for the node arrives while it is in its block
+        jobs.append(net.job_write(name[s], d, 65, msg(n), budget_ms=8000))
     # every third scenario runs in a private address space (prefix / suffix changed after construction, node_address re-assigned)
     priv = dict(prefix=0xA7, suffix=[0x5A, 0x69, 0x96, 0xA5, 0xC3, 0x3C]) if seed % 3 == 0 else {}
     ns = net.NetSim(nodes, seed=seed, jitter=jitter, faults=rules, **priv)
@@ -96,6 +106,8 @@ def build(chk):
     for (s, d) in [(0o11, 0o21), (0o111, 0), (0, 0o11)]:
         for n in (5, 60):
             add("routing-mid", (s, d, 65, n))
+    for (s, d) in [(0o11, 0o1), (0, 0o2), (0o21, 0o111)]:
+        add("context", (s, d, 5))
     return jobs
 
 
